@@ -241,3 +241,29 @@ class pnc_warnings:
         self.pw.std_showwarning = self.oldshow
         self.cw.__exit__(*exc)
         return False
+
+
+class Hang(Exception):
+    """the implementation did not return within the time limit (an endless loop is a failure, not a harness error)"""
+
+
+class time_limit:
+    """`with time_limit(5): ...` raises Hang inside the block after that many seconds (worker processes, main thread)"""
+
+    def __init__(self, seconds):
+        self.seconds = seconds
+
+    def __enter__(self):
+        import signal
+
+        def handler(signum, frame):
+            raise Hang('no result after %d s' % self.seconds)
+        self.old = signal.signal(signal.SIGALRM, handler)
+        signal.alarm(self.seconds)
+        return self
+
+    def __exit__(self, *a):
+        import signal
+        signal.alarm(0)
+        signal.signal(signal.SIGALRM, self.old)
+        return False
